@@ -155,7 +155,9 @@ T_State == /\ Ev("state")
                   \* over WebSocket a connection dropped right after <resume/> can surface as a failed WRITE of the request
                   \* (the library reports a write error although the frame left): the client then cannot know whether the
                   \* request was seen and may keep the state for another try; over TCP the drop is seen by the read
-                  wsDropAtResume == cf.ws /\ Len(reps) > 0 /\ reps[Len(reps)].stage = "resr" /\ reps[Len(reps)].v = "close"
+                  \* (the scripted server now waits 40 ms before such a drop, so that the request has been written: the
+                  \* exemption is kept for the write-failure path only in name - it is switched off)
+                  wsDropAtResume == FALSE
                   v2 == IF lastret = "hang" \/ expc.resumed \/ kprev.smid = "" \/ E.smid # kprev.smid \/ keep.smid = kprev.smid \/ wsDropAtResume THEN <<>> ELSE
                           <<V("C11", "stale-resumption-state-is-discarded", IF Len(reps) = 0 THEN "none" ELSE reps[Len(reps)].stage \o ":" \o reps[Len(reps)].v, d)>>
                   v3 == IF ~ok \/ expc.resumed \/ E.smid = keep.smid THEN <<>> ELSE
@@ -163,8 +165,7 @@ T_State == /\ Ev("state")
               IN verdicts' = IF dead THEN verdicts ELSE AddV(v1 \o v2 \o v3)
            /\ bindjid' = IF lastret = "ok" /\ ~expc.resumed THEN E.bindjid ELSE bindjid
            \* the reference follows the client when it legitimately kept the state (see wsDropAtResume)
-           /\ keep' = IF cf.ws /\ Len(reps) > 0 /\ reps[Len(reps)].stage = "resr" /\ reps[Len(reps)].v = "close"
-                          /\ kprev.smid # "" /\ E.smid = kprev.smid THEN kprev ELSE keep
+           /\ keep' = keep
            /\ l' = l + 1 /\ UNCHANGED <<tid, cf, user, secret, kprev, n, op, nst, reps, els, estab, lastret, expc, smdown, dead>>
 
 \* stanzas received while the session was up count towards the next <resume h/>
